@@ -30,6 +30,7 @@ inductive Op
   | delCols (basisOk : Bool)
   | chgKeepFactor               -- QSchange_objcoef / rhscoef / bound(s) / objsense: free_cache only
   | chgMatrix                   -- QSchange_coef / QSchange_sense(s) / QSchange_range: factorok := 0, free_cache
+  | chgBound (keep : Bool)      -- QSchange_bound(s): free_cache; oracle: a non-basic column sitting at the bound that became infinite is moved (factorok := 0)
   | loadBasis                   -- QSload_basis*: basis present, factorok := 0
   | optPrimal (rstatus : Nat) (fail : Bool)
   | optDual (rstatus : Nat) (fail : Bool)
@@ -61,6 +62,7 @@ def step (s : S) : Op → S
   | .delCols bok => freeCache { edited s with basis := s.basis && bok, factorok := false }
   | .chgKeepFactor => freeCache (edited s)
   | .chgMatrix => freeCache { edited s with factorok := false }
+  | .chgBound keep => freeCache { edited s with factorok := s.factorok && keep }
   | .loadBasis => { s with basis := true, factorok := false }
   | .optPrimal r fail => if s.basis && s.cache then s else optWork s r fail
   | .optDual r fail => if s.basis && s.cache && s.factorok then s else optWork s r fail
